@@ -9,6 +9,9 @@ from engine.explore import Harness, Violation
 
 PROP = "C20"
 ASSUME = [
+    "PHY variants: the adapter + CommandsPipeline netlist as LPDDR4PHY instantiates it, the same path inside the real single-rate LPDDR4SimPHY (lp4-simphy-*), and the real DoubleRateLPDDR4SimPHY "
+    "(lp4-doublerate-*: its double-rate CS/CA pins must carry slots 0..3 then 4..7 of the single-rate word of the previous controller cycle; both clocks phase aligned, first edge after reset is a "
+    "sys2x-only edge - the alignment serdes_reset_cnt = 0 is chosen for)",
     "LPDDR4: 8 DFI phases, CS/CA serialised 8 slots per controller cycle, commands span at most 4 slots (as LPDDR4PHY instantiates the adapters and the pipeline); masked-write selectable",
     "DFI encodings as documented by the adapters: ACT/RD/WR/PRE/REF/MRS standard; DFI ZQC with bank 0 = MPC (op = address[6:0]), bank 1 = MRR (MA = address[5:0]); MRW: MA = bank[5:0], OP = address[7:0]",
     "decoder written from the JEDEC truth table (CS-high cycle / CS-low cycle, CA0..CA5); 'V' (valid, don't care) bits are not compared",
@@ -66,22 +69,34 @@ def decode_small(hi, lo):
 
 
 class Lp4Harness(Harness):
-    def __init__(self, mode="slots", maxcmds=2, masked=True, extended=False, types=("ACT", "RD", "PRE"), phases=None):
+    def __init__(self, mode="slots", maxcmds=2, masked=True, extended=False, types=("ACT", "RD", "PRE"), phases=None, simphy=False):
         from migen import Module
         from litedram.phy.dfi import Interface as DFIInterface
         from litedram.phy.lpddr4.commands import DFIPhaseAdapter
         from litedram.phy.utils import CommandsPipeline
-        dfi = DFIInterface(17, 6, 1, 16, nphases=NPH)
-        self.dfi = dfi; self.masked = bool(masked); self.extended = bool(extended); self.mode = mode
+        self.masked = bool(masked); self.extended = bool(extended); self.mode = mode
+        if simphy:
+            # the command path inside the real single-rate LPDDR4SimPHY (DFI -> adapters -> CommandsPipeline -> out.cs/out.ca as the PHY wires it)
+            from litedram.phy.lpddr4.simphy import LPDDR4SimPHY
+            phy = LPDDR4SimPHY(sys_clk_freq=100e6, masked_write=bool(masked), extended_overlaps_check=bool(extended))
+            phy.finalize()
+            dfi = phy.dfi
+            class _P: pass
+            pipe = _P(); pipe.cs = phy.out.cs; pipe.ca = list(phy.out.ca)
+            reads = [pipe.cs] + list(pipe.ca)
+            self.c = c = fhdl.compile_harness(phy, reads, clocks={d: 10 for d in sorted(phy._fragment.sync.keys())}, ticksets=[("sys",)])
+        else:
+            dfi = DFIInterface(17, 6, 1, 16, nphases=NPH)
 
-        class Top(Module):
-            def __init__(s):
-                ad = [DFIPhaseAdapter(p, masked_write=bool(masked)) for p in dfi.phases]; s.submodules += ad
-                s.submodules.pipe = CommandsPipeline(ad, cs_ser_width=8, ca_ser_width=8, ca_nbits=6, cmd_nphases_span=4, extended_overlaps_check=bool(extended))
-        top = Top()
-        pipe = top.pipe
-        reads = [pipe.cs] + list(pipe.ca)
-        self.c = c = fhdl.compile_harness(top, reads)
+            class Top(Module):
+                def __init__(s):
+                    ad = [DFIPhaseAdapter(p, masked_write=bool(masked)) for p in dfi.phases]; s.submodules += ad
+                    s.submodules.pipe = CommandsPipeline(ad, cs_ser_width=8, ca_ser_width=8, ca_nbits=6, cmd_nphases_span=4, extended_overlaps_check=bool(extended))
+            top = Top()
+            pipe = top.pipe
+            reads = [pipe.cs] + list(pipe.ca)
+            self.c = c = fhdl.compile_harness(top, reads)
+        self.dfi = dfi
         ii = c.ii
         self.i_ph = [{f: ii[getattr(ph, f)] for f in ("cs_n", "ras_n", "cas_n", "we_n", "bank", "address")} for ph in dfi.phases]
         self.r_cs = c.rd(pipe.cs); self.r_ca = [c.rd(x) for x in pipe.ca]
@@ -198,6 +213,76 @@ class Lp4Harness(Harness):
         return (ch, sent, over, tuple(nspill), slots[7], bud - 1 if bud > 0 else bud, wm), 0
 
     def coverage(self): return dict(self.cov, patterns=len(self.pats))
+
+
+# ================================================================================================ LPDDR4, double-rate variant
+
+class Lp4DoubleRateHarness(Harness):
+    """The real DoubleRateLPDDR4SimPHY: the single-rate command words (`_out.cs/_out.ca`, 8 slots per controller cycle - the stream the
+    reference decoder of Lp4Harness judges) go through one 16:8-style serialisation stage clocked at twice the controller clock.  Oracle: the
+    double-rate pins carry, one controller cycle later (Serializer.LATENCY), first slots 0..3 and then slots 4..7 of each word, on CS and on every
+    CA line.  Clock convention: both clocks are phase aligned and the first edge after reset is a sys2x-only edge (serdes_reset_cnt = 0, the
+    PHY's default, is chosen for exactly this alignment)."""
+    multiclock = True
+
+    def __init__(self, masked=True, types=("ACT", "PRE"), phases=(0, 3, 4, 7), maxcmds=2):
+        from litedram.phy.lpddr4.simphy import DoubleRateLPDDR4SimPHY
+        phy = DoubleRateLPDDR4SimPHY(sys_clk_freq=100e6, masked_write=bool(masked))
+        phy.finalize()
+        self.sigs2 = [phy.out.cs] + list(phy.out.ca); self.sigs1 = [phy._out.cs] + list(phy._out.ca)
+        assert all(len(a) * 2 == len(b) for a, b in zip(self.sigs2, self.sigs1))
+        self.half = len(phy.out.cs)
+        self.c = c = fhdl.compile_harness(phy, self.sigs1 + self.sigs2, clocks={d: 10 for d in sorted(phy._fragment.sync.keys())}, ticksets=[("sys2x",), ("sys", "sys2x")])
+        ii = c.ii
+        self.i_ph = [{f: ii[getattr(ph, f)] for f in ("cs_n", "ras_n", "cas_n", "we_n", "bank", "address")} for ph in phy.dfi.phases]
+        self.r2 = [c.rd(x) for x in self.sigs2]; self.r1 = [c.rd(x) for x in self.sigs1]
+        self.base = list(c.base_inputs)
+        for d in self.i_ph:
+            self.base[d["cs_n"]] = 1; self.base[d["ras_n"]] = 1; self.base[d["cas_n"]] = 1; self.base[d["we_n"]] = 1
+        fixed = {"ACT": (5, 0x15a5a), "RD": (2, 0x00664), "WR": (3, 0x00298), "PRE": (6, 0x00400), "REF": (1, 0x00000), "MRW": (0x2a, 0x000c3), "MPC": (0, 0x4f), "MRR": (1, 0x11)}
+        pats = [()]
+        for k in range(1, maxcmds + 1):
+            for phs in itertools.combinations(tuple(phases), k):
+                for ts in itertools.product(types, repeat=k):
+                    pats.append(tuple((p, t) + fixed[t] for p, t in zip(phs, ts)))
+        self.pats = pats; self.cov = {}
+
+    # env: (half of the controller cycle: 0 = after the common edge, 1 = after the sys2x-only edge; pattern held this cycle; words latched at the last common edge)
+    def env0(self): return (0, 0, tuple(0 for _ in self.sigs1))
+
+    def menu(self, S, E):
+        return list(range(len(self.pats))) if E[0] == 0 else [E[1]]
+
+    def describe(self, ch): return [("ph%d %s bank=%x addr=%x" % x) for x in self.pats[ch]] or "idle"
+
+    def drive(self, S, E, ch):
+        I = list(self.base)
+        for (p, t, b, a) in self.pats[ch]:
+            d = self.i_ph[p]; cas, ras, we = DFI[t]
+            I[d["cs_n"]] = 0; I[d["cas_n"]] = cas; I[d["ras_n"]] = ras; I[d["we_n"]] = we; I[d["bank"]] = b; I[d["address"]] = a
+        return tuple(I), (("sys2x",) if E[0] == 0 else ("sys", "sys2x"))
+
+    def observe(self, S, E, ch, I, O, S2):
+        half, pat, latched = E
+        m = (1 << self.half) - 1
+        for k, r in enumerate(self.r2):
+            got = r(S, I, O); want = (latched[k] >> (self.half * half)) & m
+            if got != want:
+                self.report("lp4.double_rate_mismatch", "%s at double rate carries %x in the %s half of the cycle, the single-rate word of the previous cycle is %02x (slots %s expected)" % (
+                    "CS" if k == 0 else "CA%d" % (k - 1), got, "second" if half else "first", latched[k], "4..7" if half else "0..3"), kind="double_rate")
+                break
+        if half == 1:
+            latched = tuple(r(S, I, O) for r in self.r1)      # the words the serialisers latch at the coming common edge
+            if any(latched): self.cov["nonidle_words"] = self.cov.get("nonidle_words", 0) + 1
+        return (1 - half, ch, latched), 0
+
+    def coverage(self): return dict(self.cov, patterns=len(self.pats))
+
+
+def build_dr(**kw):
+    if "types" in kw: kw["types"] = tuple(kw["types"])
+    if kw.get("phases") is not None: kw["phases"] = tuple(kw["phases"])
+    return Lp4DoubleRateHarness(**kw)
 
 
 # ================================================================================================ LPDDR5
@@ -353,7 +438,14 @@ def configs(tier):
     add("lp4-slots-2cmds-pre", mode="slots", maxcmds=2, types=["PRE"])
     add("lp4-slots-2cmds-act-pre-5phases", mode="slots", maxcmds=2, types=["ACT", "PRE"], phases=[0, 1, 3, 5, 7])
     add("lp4-slots-2cmds-rd-mrw-5phases", mode="slots", maxcmds=2, types=["RD", "MRW"], phases=[0, 2, 4, 6, 7], extended=True)
+    # the same reference on the command path inside the real single-rate sim PHY, and the serialisation stage of the double-rate PHY
+    add("lp4-simphy-operands-masked", mode="operands", masked=True, simphy=True)
+    add("lp4-simphy-slots-2cmds-act-pre-5phases", mode="slots", maxcmds=2, types=["ACT", "PRE"], phases=[0, 1, 3, 5, 7], simphy=True)
+    add("lp4-doublerate-act-pre", fac="build_dr", types=["ACT", "PRE"], phases=[0, 3, 4, 7], maxcmds=2)
+    add("lp4-doublerate-rd-mrw-unmasked", fac="build_dr", types=["RD", "MRW"], phases=[1, 2, 5, 6], maxcmds=2, masked=False)
     if tier == "thorough":
+        add("lp4-doublerate-wr-ref-mpc", fac="build_dr", types=["WR", "REF", "MPC"], phases=[0, 2, 4, 6, 7], maxcmds=2)
+        add("lp4-simphy-slots-2cmds-rd-mrw-extended", mode="slots", maxcmds=2, types=["RD", "MRW"], phases=[0, 2, 4, 6, 7], extended=True, simphy=True)
         # the pipeline holds two cycles of history, so a slot graph has about P^2 states and P^3 transitions for P cycle patterns: the
         # alphabets below keep P near 130 (about 2.1M transitions each); each job also has a wall-clock cap (reported as CAPPED if hit)
         add("lp4-slots-2cmds-act-pre", mode="slots", maxcmds=2, types=["ACT", "PRE"])
